@@ -674,6 +674,67 @@ func c15Gen(tier string, rng *rand.Rand, emit0 func(interface{})) {
 		emit(c15Case{Op: 2, Xs: toF64s(xs), Ys: toF64s(ys), Deg: deg, Span: F64(span), Qs: toF64s(qs)})
 	}
 	c15GenEdge(rng, mul, emit)
+	c15GenRescaled(rng, mul, emit)
+}
+
+// c15GenRescaled: "or rescaled" taken seriously (seeded change C15-11: fitted coefficients below 1e-10 flushed
+// to zero).  The data of a polynomial fit are multiplied by powers of two far from 1: ys by 2^k, |k| <= 80
+// (the exact fit and every float64 operation of the code scale with it, so the comparator's relative tolerances
+// are unchanged), and for degree <= 1 also xs by 2^j, |j| <= 20 (true slopes of order 2^-j).  Each case is sent
+// through PolynomialRegression and through LinearLeastSquares on the monomial basis.  Placed last so that the
+// streams above are unchanged for a given seed.
+func c15GenRescaled(rng *rand.Rand, mul int, emit func(interface{})) {
+	for it := 0; it < 40*mul; it++ {
+		deg := it % 4
+		n := deg + 2 + rng.Intn(8)
+		if n < 3 {
+			n = 3
+		}
+		xs := c15Xs(rng, n, 0)
+		xk := 0
+		if deg <= 1 && it%2 == 0 {
+			xk = rng.Intn(41) - 20
+		}
+		yk := rng.Intn(161) - 80
+		if it%5 == 4 {
+			yk = 0 // x rescaling alone
+			if xk == 0 && deg <= 1 {
+				xk = 20 - 40*rng.Intn(2)
+			}
+		}
+		for i := range xs {
+			xs[i] = math.Ldexp(xs[i], xk)
+		}
+		coef := make([]float64, deg+1)
+		for k := range coef {
+			coef[k] = math.Ldexp(float64(rng.Intn(17)-8), -k*xk)
+			if coef[k] == 0 && k == deg {
+				coef[k] = math.Ldexp(3, -k*xk)
+			}
+		}
+		ys := c15PolyVals(coef, xs)
+		if it%3 == 2 {
+			for i := range ys {
+				ys[i] += c15Dyadic(rng, 8)
+			}
+		}
+		for i := range ys {
+			ys[i] = math.Ldexp(ys[i], yk)
+		}
+		qs := c15Queries(rng, xs, 4)
+		c := c15Case{Op: 1, Xs: toF64s(xs), Ys: toF64s(ys), Deg: deg, Qs: toF64s(qs)}
+		if it%4 == 1 {
+			c.HasW = true
+			c.W = toF64s(c15Weights(rng, n, true))
+		}
+		emit(c)
+		var basis []c15Term
+		for p := 0; p <= deg; p++ {
+			basis = append(basis, c15Term{Kind: 0, P: p})
+		}
+		l := c15Case{Op: 0, Xs: c.Xs, Ys: c.Ys, HasW: c.HasW, W: c.W, Basis: basis}
+		emit(l)
+	}
 }
 
 // c15GenEdge: the thin places of the streams above, made explicit.
